@@ -10,7 +10,7 @@ CELLS = [("Server", "x86_64"), ("Server", "aarch64"), ("Workstation", "x86_64")]
 ADDITIONAL = [[], ["Client"], ["Client", "Server"]]
 
 
-def make_image(sym, im, i, unified_choice):
+def make_image(sym, im, i, unified_choice, second_type=False):
     img = Image(im)
     img.path = sym.str("path%d" % i, 2, minlen=1)
     img.mtime = 1
@@ -22,6 +22,8 @@ def make_image(sym, im, i, unified_choice):
     img.disc_number = sym.int("discnum%d" % i, 1, 3)
     img.disc_count = 3
     img.checksums = {"sha256": sym.str("sha256_%d" % i, 2)}
+    if second_type:
+        img.checksums["md5"] = sym.str("md5_%d" % i, 2)          # several checksum types, partially overlapping between images
     img.implant_md5 = None
     img.bootable = False
     img.subvariant = sym.str("subvariant%d" % i, 2)
@@ -61,14 +63,14 @@ def same_snapshot(a, b):
     return True
 
 
-def add_step(sym, pre_cells, new_cell, unified, versioned):
+def add_step(sym, pre_cells, new_cell, unified, versioned, md5=(False, False, False, False)):
     """inductive step: from any manifest satisfying the invariant, one add either is refused and changes nothing
     or keeps the invariant; for format >= 1.1 it is refused exactly when it would break the invariant"""
     im = Images()
     pre = []
     try:
         for i, c in enumerate(pre_cells):
-            img = make_image(sym, im, i, unified[i])
+            img = make_image(sym, im, i, unified[i], md5[i])
             im.add(CELLS[c][0], CELLS[c][1], img)
             pre.append(img)
     except ValueError:
@@ -82,7 +84,7 @@ def add_step(sym, pre_cells, new_cell, unified, versioned):
         enforced = sym.or_(major > 1, sym.and_(major == 1, minor >= 1))
     else:
         enforced = True
-    new = make_image(sym, im, len(pre_cells), unified[len(pre_cells)])
+    new = make_image(sym, im, len(pre_cells), unified[len(pre_cells)], md5[len(pre_cells)])
     before = snapshot(im)
     collision = sym.or_(*[sym.and_(same_identity(sym, p, new), sym.not_(sym.same(p.checksums, new.checksums))) for p in pre])
     try:
@@ -174,6 +176,8 @@ def jobs(tier, seed):
             for u in (((0,) * 4, (1, 1, 1, 1), (1, 2, 1, 2), (0, 1, 0, 1)) if big else ((0,) * 4, (1, 2, 1, 1))):
                 out.append({"harness": "add_step", "params": {"pre_cells": pre, "new_cell": new_cell, "unified": list(u), "versioned": False}})
         out.append({"harness": "add_step", "params": {"pre_cells": pre, "new_cell": (pi + seed) % 3, "unified": [0, 0, 0, 0], "versioned": True}})
+        for md5 in ([True, False, True, False], [False, True, False, True], [True, True, True, True]):
+            out.append({"harness": "add_step", "params": {"pre_cells": pre, "new_cell": (pi + 1) % 3, "unified": [0, 0, 0, 0], "versioned": False, "md5": md5}})
     for cell2 in (0, 1, 2):
         for wu in (False, True):
             out.append({"harness": "load_collision", "params": {"cell2": cell2, "with_unified": wu}})
